@@ -646,7 +646,7 @@ def oracle(ctx, intensive: bool = False, hints=()) -> C.Part:
             return P
 
     # (1) taps: every odd order 1..111
-    nd = ctx.scale(6, 40) * mult
+    nd = ctx.scale(6, 72) * mult
     for h in range(1, HMAX + 1):
         ds = [0.0, 0.5, float(rng.integers(1, 64)) / 64.0, float(rng.uniform(0, 1)), float(rng.choice([2.0 ** -30, 1e-12, 1e-300, 2.0 ** -53])),
               float(rng.choice([1 - 2.0 ** -53, 1 - 2.0 ** -20, 0.999]))]
